@@ -11,7 +11,7 @@ let variant =
   match Sys.getenv_opt "C09_VARIANT" with
   | Some s when String.length s = 6 -> (s.[0] = '1', s.[1] = '1', s.[2] = '1', s.[3] = '1', s.[4] = '1', s.[5] = '1')
   | Some s when String.length s = 4 -> (s.[0] = '1', s.[1] = '1', s.[2] = '1', s.[3] = '1', false, false)
-  | _ -> (true, true, true, true, false, false)
+  | _ -> (true, true, true, true, true, true)   (* the repository as it stands: all six repairs (fullv) *)
 
 let zi s = z_of_int (int_of_string s)
 
